@@ -15,7 +15,7 @@ VARIABLES kind, form, level, lazy, steps, cfg, out, lazy0
 vars == <<kind, form, level, lazy, steps, cfg, out, lazy0>>
 Cfgs == {"none", "same", "othersym", "otherferm"}
 HasHdf5(k) == k \in {"Tensor", "Mps", "Mpo"}
-HasLegacy(k) == k \in {"Tensor", "Mps", "Mpo", "Peps"}
+HasLegacy(k) == k \in {"Tensor", "Mps", "Mpo", "Peps", "EnvCTM", "EnvBP", "EnvBMPS"}       \* environments: EnvCTM / EnvBP / EnvBoundaryMPS (state + environment tensors)
 Init == kind \in Kinds /\ form = "obj" /\ level = -1 /\ lazy \in BOOLEAN /\ lazy0 = lazy /\ steps = <<>> /\ cfg = "none" /\ out = "running"
 Do(s) == steps' = Append(steps, s) /\ UNCHANGED lazy0
 ToDict(lv, res) == /\ form = "obj" /\ form' = "dict" /\ level' = lv /\ lazy' = (lazy /\ ~res) /\ Do(<<"to_dict", lv, res>>) /\ UNCHANGED <<kind, cfg, out>>
